@@ -477,9 +477,13 @@ def ki_handler(ctx: Ctx):
                      f'`{src(r)}` in the interrupt handler raises something other than the caught KeyboardInterrupt')
     # the normal return is in the else of the outer try only
     rets = [n for n in walk_local(run.node) if isinstance(n, ast.Return)]
-    ok = all(any(x is r for s in t1.orelse for x in ast.walk(s)) for r in rets) and bool(rets)
-    yield ctx.ob('C14.HANDLER', ok, run, rets[0] if rets else run.node, 'normal return only in the else of the outer try', '' if ok else
-                 'a return statement is reachable outside the else branch of the interrupt-handling try')
+    # a return is only reachable when no interrupt was caught: not inside a handler, and (since every exit of the
+    # handler raises, checked above) not reachable from the handler at all
+    reach_from_handler = g.reachable([he], exc=False)
+    ok = bool(rets) and not any(any(x is r for x in ast.walk(h1)) for r in rets) \
+        and not any(g.primary(r) in reach_from_handler for r in rets)
+    yield ctx.ob('C14.HANDLER', ok, run, rets[0] if rets else run.node, 'the normal return is not reachable once an interrupt was caught', '' if ok else
+                 'a return statement is reachable from the interrupt handler')
     # CANCEL-FIRST
     cs = calls_matching(h1, cancels)
     ws = [w for w in waits(h1) if not any(x is w for x in ast.walk(h2))]
@@ -545,27 +549,23 @@ def sigint_ignored_first(ctx: Ctx):
 def queue_in_thread(ctx: Ctx):
     """The code that takes an item off the result queue and transitions its future runs only as the
     target of a Thread (so an interrupt cannot split a result)."""
-    from .executor import executor
+    from .executor import executor, queue_consumer
     ex = executor(ctx)
-    takers = []
-    for m in ex.cls.methods.values():
-        for fn in [m] + list(m.nested.values()):
-            for c in calls_in(fn.node):
-                if isinstance(c.func, ast.Attribute) and c.func.attr in ('get', 'get_nowait') and 'result_queue' in src(c.func.value):
-                    takers.append((fn, c))
-    if not takers:
-        raise AnalysisError('no result-queue get found in the executor')
-    for (fn, c) in takers:
-        ok = fn.parent is not None
-        if ok:
-            outer = fn.parent
-            ths = [t for t in calls_in(outer.node) if dotted(t.func) in ('Thread', 'threading.Thread')
-                   and isinstance(kwarg(t, 'target', 1), ast.Name) and kwarg(t, 'target', 1).id == fn.name]
-            direct = [d for d in calls_in(outer.node) if isinstance(d.func, ast.Name) and d.func.id == fn.name]
-            joined = any(isinstance(j.func, ast.Attribute) and j.func.attr == 'join' for j in calls_in(outer.node))
-            ok = bool(ths) and not direct and joined
-        yield ctx.ob('C14.QUEUE-IN-THREAD', ok, fn, c, 'result queue consumed only inside a joined helper thread', '' if ok else
-                     'the result queue is consumed on the calling thread: a KeyboardInterrupt between taking a result and completing its future loses it')
+    cons, host, thread = queue_consumer(ctx)
+    gets = [c for c in calls_in(cons.node) if isinstance(c.func, ast.Attribute) and c.func.attr in ('get', 'get_nowait') and 'result_queue' in src(c.func.value)]
+    ok = host is not None
+    if ok:
+        # never called directly, and the host waits for the thread
+        direct = []
+        for m in ex.cls.methods.values():
+            for f in [m] + list(m.nested.values()):
+                for d in calls_in(f.node):
+                    if cons.qualname in ctx.P.resolve_call(d, f, by_name=False):
+                        direct.append(d)
+        joined = any(isinstance(j.func, ast.Attribute) and j.func.attr == 'join' for j in calls_in(host.node))
+        ok = not direct and joined
+    yield ctx.ob('C14.QUEUE-IN-THREAD', ok, cons, gets[0], 'result queue consumed only inside a joined helper thread', '' if ok else
+                 'the result queue is consumed on the calling thread: a KeyboardInterrupt between taking a result and completing its future loses it')
 
 
 PSUTIL_INSPECT = {'oneshot', 'create_time', 'num_threads', 'cpu_percent', 'memory_percent', 'children', 'memory_info', 'status', 'cpu_times'}
